@@ -120,7 +120,7 @@ func c17CreateIn(c *c17Case, seed int64, r *core.Rec, stale map[string][]byte) (
 	defer os.RemoveAll(root)
 	// directory names with characters that mean something to formatters, globbers and shells (they are part of the
 	// index path whenever it is spelled from outside the set directory)
-	setDir := filepath.Join(root, "pa%rent", "se%20t %d")
+	setDir := filepath.Join(root, "pa%r\u00e9nt", "se%20t %d") // a non-ASCII directory above the set: stored names are relative to the index and stay ASCII
 	unrelated := filepath.Join(root, "else", "where")
 	os.MkdirAll(unrelated, 0755)
 	var abs []string
